@@ -164,3 +164,53 @@ contract(
     setup=CONN + ["t = spec.env.Transport([spec.logix.multi_reply(head, [spec.logix.sub_reply(0x4d, 0)])])", "d._sock = t"],
     ensures=["len(result) == 2", "not bool(result[0]) and len(result[0].error) > 0", "bool(result[1])"],
     props=["C03"], max_paths=20000)
+
+# a bit beyond the integer's width: an error for that request only
+contract(
+    id="write.bit.out_of_range", func=LD + ".write", call="d.write(('d.' + b, True), ('d', 5))",
+    params={"use_ids": P.bool(), "head": P.bytes(len=46), "b": P.numeral(32, 10**6), "st0": ST},
+    requires=["spec.encap.le(head, 8, 4) == 0"],
+    setup=CONN + ["t = spec.env.Transport([spec.logix.multi_reply(head, [spec.logix.sub_reply(0x4d, st0)])])", "d._sock = t"],
+    ensures=["len(result) == 2", "not bool(result[0]) and len(result[0].error) > 0", "bool(result[1]) == (st0 == 0)", "len(t.sent) == 1"],
+    props=["C03", "C02"], max_paths=20000)
+contract(
+    id="read.bit.out_of_range", func=LD + ".read", call="d.read('d.' + b, 'd')",
+    params={"use_ids": P.bool(), "head": P.bytes(len=46), "b": P.numeral(32, 10**6), "st0": ST, "d0": P.bytes(len=4)},
+    requires=["spec.encap.le(head, 8, 4) == 0"],
+    setup=CONN + ["t = spec.env.Transport([spec.logix.multi_reply(head, [spec.logix.sub_reply(0x4c, st0, b'\\xc4\\x00' + d0)])])", "d._sock = t"],
+    ensures=["len(result) == 2", "not bool(result[0]) and len(result[0].error) > 0 and result[0].value is None",
+             "bool(result[1]) == (st0 == 0)", "len(t.sent) == 1"],
+    props=["C03", "C01"], max_paths=20000)
+
+# Micro800: no multi-service packets -- one frame per request, bit writes included, every request keeps its own result
+contract(
+    id="write.micro800", func=LD + ".write", call="d.write(('d.1', b1), ('arr[1].2', b2), ('d', v), ('nope', 1), ('d.3', b3))",
+    params={"use_ids": P.bool(), "head": P.bytes(len=46), "b1": P.bool(), "b2": P.bool(), "b3": P.const("True"), "v": P.int(-2**31, 2**31 - 1),
+            "st0": ST, "st1": ST, "st2": P.const("0"), "st4": ST},
+    requires=["spec.encap.le(head, 8, 4) == 0"],
+    setup=CONN + ["d._micro800 = True",
+                  "t = spec.env.Transport([head + spec.logix.sub_reply(0x4e, st0), head + spec.logix.sub_reply(0x4e, st1), "
+                  "head + spec.logix.sub_reply(0x4d, st2), head + spec.logix.sub_reply(0x4e, st4)])", "d._sock = t",
+                  "m0 = spec.logix.rmw_masks(4, [(1, b1)])", "m1 = spec.logix.rmw_masks(2, [(2, b2)])", "m4 = spec.logix.rmw_masks(4, [(3, b3)])"],
+    ensures=["isinstance(result, list) and len(result) == 5", "len(t.sent) == 4",
+             "bool(result[0]) == (st0 == 0) and bool(result[1]) == (st1 == 0) and bool(result[2]) == (st2 == 0) and bool(result[4]) == (st4 == 0)",
+             "not bool(result[3]) and len(result[3].error) > 0",
+             "[r.tag for r in result] == ['d.1', 'arr[1].2', 'd', 'nope', 'd.3']",
+             "spec.encap.try_parse_frame(t.sent[0])[3][3] == spec.logix.rmw_request(" + PATH.format(tag="d", base="d") + ", 4, m0[0], m0[1])",
+             "spec.encap.try_parse_frame(t.sent[1])[3][3] == spec.logix.rmw_request(" + PATH.format(tag="arr[1]", base="arr") + ", 2, m1[0], m1[1])",
+             "spec.encap.try_parse_frame(t.sent[3])[3][3] == spec.logix.rmw_request(" + PATH.format(tag="d", base="d") + ", 4, m4[0], m4[1])"],
+    props=["C03", "C02"], max_paths=40000)
+contract(
+    id="read.micro800", func=LD + ".read", call="d.read('d', 'nope', 'arr[2]{3}', 'd.5')",
+    params={"use_ids": P.bool(), "head": P.bytes(len=46), "st0": ST, "st2": ST, "st3": ST, "d0": P.bytes(len=4), "d2": P.bytes(len=6), "d3": P.bytes(len=4)},
+    requires=["spec.encap.le(head, 8, 4) == 0"],
+    setup=CONN + ["d._micro800 = True",
+                  "t = spec.env.Transport([head + spec.logix.sub_reply(0x4c, st0, b'\\xc4\\x00' + d0), "
+                  "head + spec.logix.sub_reply(0x4c, st2, b'\\xc3\\x00' + d2), head + spec.logix.sub_reply(0x4c, st3, b'\\xc4\\x00' + d3)])", "d._sock = t"],
+    ensures=["isinstance(result, list) and len(result) == 4", "len(t.sent) == 3",
+             "(bool(result[0]) and result[0].value == spec.cip_codec.decode_int('DINT', d0)) if st0 == 0 else not bool(result[0])",
+             "not bool(result[1]) and len(result[1].error) > 0",
+             "(bool(result[2]) and result[2].value == [spec.cip_codec.decode_int('INT', d2[2*i:2*i+2]) for i in range(3)]) if st2 == 0 else not bool(result[2])",
+             "(bool(result[3]) and result[3].value == spec.logix.bit_of(spec.cip_codec.decode_int('DINT', d3), 5)) if st3 == 0 else not bool(result[3])",
+             "[r.tag for r in result] == ['d', 'nope', 'arr[2]', 'd.5']"],
+    props=["C03", "C01"], max_paths=40000)
